@@ -18,7 +18,7 @@ demo_with=skip; demo_without=skip
 if [ -f "$M/demo_path.txt" ]; then
   # demo_path.txt: one path per line (relative to repo root); demo files sit next to it by base name
   pkgs=""
-  while read -r dp; do [ -z "$dp" ] && continue; mkdir -p "$(dirname "$dp")"; cp "$M/$(basename "$dp")" "$dp"; pkgs="$pkgs ./$(dirname "$dp")/"; done < "$M/demo_path.txt"
+  while read -r dp; do [ -z "$dp" ] && continue; mkdir -p "$(dirname "$dp")"; b="$M/$(basename "$dp")"; [ -f "$b" ] || b="$b.txt"; cp "$b" "$dp"; pkgs="$pkgs ./$(dirname "$dp")/"; done < "$M/demo_path.txt"
   pkgs="$(echo $pkgs | tr ' ' '\n' | sort -u | tr '\n' ' ')"
   demo_with=fail-as-expected; go test -vet=off -count=1 $pkgs >"$OUT/demo_with.log" 2>&1 && demo_with=UNEXPECTED-PASS
   git checkout -q -- .   # library change off (untracked demo files stay); never git stash: refs/stash is shared by all worktrees
